@@ -597,6 +597,8 @@ def mutation_for(w, inst, tag, same_name=False):
         opts += ["adddefault"]
     if kind == "leaf":
         opts += ["default"]
+    if kind in ("leaf", "leaflist"):
+        opts += ["type", "type", "units"]
     if kind in ("leaf", "leaflist", "container", "list", "any"):
         opts += ["config", "notsupported"]
     if kind in ("container", "list", "case", "input", "output", "notification"):
@@ -629,6 +631,10 @@ def mutation_for(w, inst, tag, same_name=False):
         d = dict(kind="add", default="zd" + tag)
     elif o == "config":
         d["cfg"] = False
+    elif o == "type":
+        d["type"] = r.choice([t for t in sg.BUILTINS if t != node[2]])      # another builtin than the one written
+    elif o == "units":
+        d = dict(kind="add", units="zu" + tag)
     return ([], [(path, [d])], ("cut", steps))
 
 
